@@ -2624,6 +2624,8 @@ def arg_val(target, arg, scope):
     """
     mode = scope[MIN_MODE]
     scope[MIN_MODE] = _ArgValuator().mode
-    result = scope[glom](target, arg, scope)
-    scope[MIN_MODE] = mode
+    try:
+        result = scope[glom](target, arg, scope)
+    finally:  # an argument that fails must not leave its scope in argument mode (a wildcard step swallows such failures)
+        scope[MIN_MODE] = mode
     return result
